@@ -78,7 +78,7 @@ struct Controller {
     }
 };
 
-inline Controller &ctl() { static Controller c; return c; }
+inline Controller &ctl() { static thread_local Controller c; return c; }   // one controller per (rank) thread
 
 // build a random schedule tree over [lo, hi) into `out`; returns node index
 inline int random_tree(Controller &c, std::vector<Node> &out, std::size_t lo, std::size_t hi, std::uint64_t &salt, int pct_split) {
